@@ -65,12 +65,7 @@ def setup():
     return rc or (1 if hits else 0)
 
 
-def check(pid, tier, seed, replay=None):
-    mod = importlib.import_module(f"props.{pid.lower()}")
-    ctx = core.Ctx(pid, tier, seed)
-    if replay:
-        return mod.replay(ctx, json.load(open(replay)))
-
+def _build_phase(mod, pid, ctx):
     # 1. regenerate the generated models from /repo's working tree
     diags = core.regen()
     for k, v in diags.items():
@@ -104,6 +99,22 @@ def check(pid, tier, seed, replay=None):
                 if not bok:
                     ctx.broken.append(f"OCaml driver for area {area} failed to build: {blog[-600:]}")
                     ok = False
+
+    return ctx, audit, ok
+
+
+def check(pid, tier, seed, replay=None):
+    mod = importlib.import_module(f"props.{pid.lower()}")
+    ctx = core.Ctx(pid, tier, seed)
+    if replay:
+        return mod.replay(ctx, json.load(open(replay)))
+
+    import glob
+    for old in glob.glob(os.path.join(core.VERIF, "replays", f"{pid}-{seed}-*.json")):
+        os.remove(old)
+    # phases 1-2 hold one lock so that concurrent checks (possibly against different trees) do not interleave
+    with core.Lock("pipeline"):
+        ctx, audit, ok = _build_phase(mod, pid, ctx)
 
     # 3. correspondence and end-to-end search
     try:
